@@ -16,6 +16,7 @@ From Coq Require Import List NArith ZArith Bool Lia.
 From NextestModel Require Import Base.Tac.
 From NextestModel Require gen.GenDecisions.
 From NextestModel Require Model.Result Model.Dispatcher Model.Junit Model.UnitTimers Model.Filter Model.FilterFull.
+From NextestModel Require Model.Backoff Model.CliRun Proofs.CliRun.
 Import ListNotations.
 Open Scope N_scope.
 
@@ -26,6 +27,9 @@ Module MJ := NextestModel.Model.Junit.
 Module MU := NextestModel.Model.UnitTimers.
 Module MF := NextestModel.Model.FilterFull.
 Module MFl := NextestModel.Model.Filter.
+Module MB := NextestModel.Model.Backoff.
+Module MC := NextestModel.Model.CliRun.
+Module PC := NextestModel.Proofs.CliRun.
 
 (* boolean comparisons in hypotheses -> propositions lia understands *)
 Ltac b2p :=
@@ -487,3 +491,86 @@ Proof.
   intros. unfold part_input, MFl.filter_match.
   destruct pb as [b|]; [destruct (MFl.part_match b cur name) as [ok cur'] |]; bridge.
 Qed.
+
+(* ---------------------------------------------------------------- command line -> runner (Model/CliRun.v) *)
+(* == block conv_cli == *)
+Definition fmt_to_model (f : G.MessageFormat) : MC.msg_format :=
+  match f with
+  | G.MessageFormat_Human => MC.FHuman
+  | G.MessageFormat_LibtestJson => MC.FLibtestJson
+  | G.MessageFormat_LibtestJsonPlus => MC.FLibtestJsonPlus
+  end.
+Definition cap_to_model (c : G.CaptureStrategy) : MC.capture :=
+  match c with
+  | G.CaptureStrategy_Split => MC.CapSplit
+  | G.CaptureStrategy_Combined => MC.CapCombined
+  | G.CaptureStrategy_None => MC.CapNone
+  end.
+Definition threads_to_model (t : G.TestThreads) : MC.threads :=
+  match t with G.TestThreads_Count n => MC.TCount n | G.TestThreads_NumCpus => MC.TNumCpus end.
+Definition mf_to_model (m : G.MaxFail) : option N :=
+  match m with G.MaxFail_Count n => Some n | G.MaxFail_All => None end.
+Definition retry_policy_to_model (p : G.RetryPolicy) : MB.policy :=
+  match p with
+  | G.RetryPolicy_Fixed c d j => MB.Fixed c d j
+  | G.RetryPolicy_Exponential c d j m => MB.Exponential c d j m
+  end.
+Definition opts_to_model (o : G.TestRunnerOpts) : MC.run_opts :=
+  MC.mk_run_opts (G.TestRunnerOpts_no_run o) (option_map threads_to_model (G.TestRunnerOpts_test_threads o))
+    (G.TestRunnerOpts_retries o) (G.TestRunnerOpts_fail_fast o) (G.TestRunnerOpts_no_fail_fast o)
+    (option_map mf_to_model (G.TestRunnerOpts_max_fail o)).
+(* what TestRunnerBuilder::build stores in the runner, given the profile's values *)
+Definition settings_of_builder (pt : G.TestThreads) (pm : G.MaxFail) (ncpus : N) (b : G.TestRunnerBuilder)
+  : MC.runner_settings :=
+  MC.mk_runner_settings (cap_to_model (G.build_capture_strategy b)) (G.build_test_threads b pt ncpus)
+    (mf_to_model (G.build_max_fail b pm)) (option_map retry_policy_to_model (G.build_force_retries b)).
+
+(* == block cap_strat (needs conv_cli) == *)
+(* the capture strategy App::exec_run hands to TestRunnerOpts::to_builder *)
+Lemma gen_cap_strat_is_model :
+  forall nc f, cap_to_model (G.exec_run_cap_strat nc f) = MC.capture_strategy_of nc (fmt_to_model f).
+Proof. bridge. Qed.
+
+(* == block build_test_threads (needs conv_cli) == *)
+(* TestRunnerBuilder::build: the value stored in TestRunnerInner.test_threads *)
+Lemma gen_build_test_threads_is_model :
+  forall b pt ncpus,
+    G.build_test_threads b pt ncpus =
+    MC.effective_test_threads (cap_to_model (G.TestRunnerBuilder_capture_strategy b))
+      (option_map threads_to_model (G.TestRunnerBuilder_test_threads b)) (threads_to_model pt) ncpus.
+Proof. bridge. Qed.
+
+(* == block runner_settings (needs conv_cli) == *)
+(* exec_run's capture strategy -> to_builder -> build, end to end: what the runner is built with as a
+   function of the command line, the profile's test-threads / max-fail and the CPU count *)
+Lemma gen_runner_settings_is_model :
+  forall o nc f pt pm ncpus,
+    option_map (settings_of_builder pt pm ncpus) (G.TestRunnerOpts_to_builder o (G.exec_run_cap_strat nc f)) =
+    MC.runner_of (opts_to_model o) nc (fmt_to_model f) (threads_to_model pt) (mf_to_model pm) ncpus.
+Proof. bridge. Qed.
+
+(* == block no_capture_serial (needs conv_cli runner_settings) == *)
+(* C08 at the level of the source text: with --no-capture the runner is built with test_threads = 1,
+   for every message format and every other option *)
+Lemma gen_no_capture_serial :
+  forall o f pt ncpus b,
+    G.TestRunnerOpts_to_builder o (G.exec_run_cap_strat true f) = Some b ->
+    G.build_test_threads b pt ncpus = 1 /\ G.build_capture_strategy b = G.CaptureStrategy_None.
+Proof.
+  intros o f pt ncpus b H.
+  pose proof (gen_runner_settings_is_model o true f pt G.MaxFail_All ncpus) as E. rewrite H in E. cbn [option_map] in E.
+  symmetry in E. destruct (PC.runner_no_capture _ _ _ _ _ _ E) as [Hc Ht].
+  cbn [settings_of_builder MC.rs_capture MC.rs_test_threads] in Hc, Ht. split; [exact Ht|].
+  destruct (G.build_capture_strategy b); cbn in Hc; congruence.
+Qed.
+
+(* == block command_exit (needs conv_stats exec_run_exit) == *)
+(* `cargo nextest run` (the Command::Run arm of AppOpts::exec) and `cargo ntr` (NtrOpts::exec): what each does
+   with the value of App::exec_run, followed by what main() does with the result *)
+Definition entry_gen_exit (e : MC.entry) (r : Z + G.ExpectedError) : Z + G.ExpectedError :=
+  match e with MC.EntryNextestRun => G.command_run_exit r | MC.EntryNtr => G.ntr_exit r end.
+Lemma gen_command_exit_is_model :
+  forall e s p,
+    process_exit (entry_gen_exit e (G.exec_run_exit s p)) =
+    MC.entry_exit e (MR.summarize_final (stats_to_model s)) (policy_to_model p).
+Proof. bridge. Qed.
